@@ -140,6 +140,59 @@ def translate_leader(path):
         return f"({lean(t[1])} {t[0]} {lean(t[2])})"
     return lean(t)
 
+def detect_switches():
+    """Source-level facts that select between the as-found and the repaired behaviour of three
+    panic sites (DESIGN section 8: F2, F3, F4).  Unknown shape => False (the conservative,
+    panicking reading) and a note."""
+    notes = []
+    # F2: mempool/src/batch_maker.rs, benchmark sample-tx scan in `seal`
+    src = strip_comments(open(f"{REPO}/mempool/src/batch_maker.rs").read())
+    m = re.search(r'\.filter\(\s*\|\s*tx\s*\|\s*(.*?)\)\s*\.filter_map', src, flags=re.S)
+    len_first = False
+    if m:
+        cond = ' '.join(m.group(1).split())
+        parts = [p.strip() for p in cond.split('&&')]
+        idx = [i for i, p in enumerate(parts) if re.search(r'tx\s*\[', p)]
+        ln = [i for i, p in enumerate(parts) if re.search(r'tx\s*\.\s*len\s*\(\s*\)\s*(>|>=)\s*[1-9]', p) or re.search(r'!\s*tx\s*\.\s*is_empty', p)]
+        if not idx:
+            len_first = True          # no indexing at all
+        elif ln and min(ln) < min(idx):
+            len_first = True
+    else:
+        if not re.search(r'tx\s*\[\s*0\s*\]', src):
+            len_first = True
+        else:
+            notes.append("batch_maker.rs: sample-tx filter not recognised")
+    # F3: crypto/src/lib.rs decode_base64 (public and secret key)
+    src = strip_comments(open(f"{REPO}/crypto/src/lib.rs").read())
+    bodies = re.findall(r'fn\s+decode_base64.*?\n    \}', src, flags=re.S)
+    checked = bool(bodies)
+    for b in bodies:
+        if re.search(r'bytes\s*\[\s*\.\.', b):
+            checked = False
+        elif not re.search(r'\.get\s*\(\s*\.\.|try_from|try_into\s*\(\s*\)\s*\.map_err|len\s*\(\s*\)', b):
+            checked = False
+            notes.append("crypto/src/lib.rs: decode_base64 shape not recognised")
+    # F4: consensus/src/helper.rs deserialisation of the stored entry
+    src = strip_comments(open(f"{REPO}/consensus/src/helper.rs").read())
+    skips = True
+    m = re.search(r'bincode::deserialize\s*(?:::<[^>]*>)?\s*\(\s*&bytes\s*\)\s*(\.\s*(expect|unwrap)\s*\()?', src)
+    if m is None:
+        skips = False
+        notes.append("consensus/src/helper.rs: deserialize call not found")
+    elif m.group(1):
+        skips = False
+    return len_first, checked, skips, notes
+
+
+def write_if_changed(path, text):
+    old = open(path).read() if os.path.exists(path) else None
+    if old != text:
+        os.makedirs(os.path.dirname(path), exist_ok=True)
+        open(path, 'w').write(text)
+    return old != text
+
+
 def main():
     out = sys.argv[1] if len(sys.argv) > 1 else "/verif/lean/HotstuffModel/Generated/Quorum.lean"
     info = {}
@@ -178,13 +231,39 @@ def leaderIndex (round size : Nat) : Nat := {li}
 
 end Gen
 """
-    old = open(out).read() if os.path.exists(out) else None
-    if old != text:
-        os.makedirs(os.path.dirname(out), exist_ok=True)
-        open(out, 'w').write(text)
-    info = {"qtConsensus": to_lean(tc, 'total'), "qtMempool": to_lean(tm, 'total'),
+    changed = write_if_changed(out, text)
+    len_first, checked, skips, notes = detect_switches()
+    b = lambda x: "true" if x else "false"
+    sw = f"""/-
+GENERATED by /verif/tools/translate.py from the current /repo sources — do not edit.
+Which of two known shapes three panic-prone statements currently have.
+-/
+namespace Gen
+
+/-- mempool/src/batch_maker.rs (benchmark build): the sample-transaction filter tests the length
+before it indexes `tx[0]`. -/
+def batchSampleLenFirst : Bool := {b(len_first)}
+
+/-- crypto/src/lib.rs: `decode_base64` takes the key bytes with a checked slice (`get(..n)`)
+rather than `bytes[..n]`. -/
+def keySliceChecked : Bool := {b(checked)}
+
+/-- consensus/src/helper.rs: a stored entry that does not decode as a block is skipped rather
+than `expect`ed. -/
+def helperSkipsNonBlock : Bool := {b(skips)}
+
+end Gen
+"""
+    changed2 = write_if_changed(os.path.join(os.path.dirname(out), "Switches.lean"), sw)
+    class _O:  # keep the old variable name used below
+        pass
+    old = None if (changed or changed2) else text
+    info = {"batchSampleLenFirst": len_first, "keySliceChecked": checked, "helperSkipsNonBlock": skips,
+            "switch_notes": notes}
+    info0 = {"qtConsensus": to_lean(tc, 'total'), "qtMempool": to_lean(tm, 'total'),
             "unknownStakeConsensus": sc, "unknownStakeMempool": sm, "leaderIndex": li,
             "changed": old != text}
+    info.update(info0)
     print(json.dumps(info))
 
 if __name__ == "__main__":
